@@ -346,13 +346,98 @@ func absorptionGate(w *World, b *ssa.BasicBlock) (bool, string) {
 		}
 		return okBool && constKind && ((bTrue && isOr && !bFalse) || (bFalse && isAnd && !bTrue))
 	}
-	if check(factsAt(b)) || everyEdgeInto(b, check) {
+	if holdsWithAlternatives(factsAt(b), check) || everyEdgeInto(b, check) {
 		return true, "reached only with a constant bool child that is true under isOrOpNode or false under isAndOpNode"
 	}
 	return false, ""
 }
 
 // ---- R-FOLDCONST --------------------------------------------------------------
+
+// foldArgsAppended: acc is the loop-carried argument slice of a loop over all of root.children that appends
+// children[i].node.value on every iteration, under kind(children[i].node) == constant, starting from a fresh
+// empty slice; the call is reached over the loop's exit edge only.
+func foldArgsAppended(k nodeKinds, acc *ssa.Phi, call *ssa.Call, isChildren func(ssa.Value) bool) (bool, string) {
+	hdr := acc.Block()
+	iff, okIf := hdr.Instrs[len(hdr.Instrs)-1].(*ssa.If)
+	if !okIf {
+		return false, "the argument slice is not built in a loop"
+	}
+	cmp, okCmp := iff.Cond.(*ssa.BinOp)
+	if !okCmp || cmp.Op != token.LSS {
+		return false, "the argument slice is not built in a loop over the children"
+	}
+	childrenVal, okl := lenArg(cmp.Y)
+	if !okl || !isChildren(childrenVal) {
+		return false, "the loop that builds the arguments does not range over root.children"
+	}
+	if h, okh := rangeIndexHeader(cmp.X, childrenVal); !okh || h != hdr {
+		return false, "the loop that builds the arguments does not visit every child"
+	}
+	idx := cmp.X
+	if !edgeDominates(hdr, 1, call.Block()) {
+		return false, "the operator call is not dominated by the completion of the constant-check loop"
+	}
+	back := 0
+	for i, e := range acc.Edges {
+		pred := hdr.Preds[i]
+		if !hdr.Dominates(pred) {
+			ms, isMS := e.(*ssa.MakeSlice)
+			if !isMS {
+				return false, "the argument slice is not freshly made in the folding pass"
+			}
+			if n, okn := constInt(ms.Len); !okn || n != 0 {
+				return false, "the argument slice does not start empty"
+			}
+			continue
+		}
+		back++
+		app, okA := e.(*ssa.Call)
+		if !okA || calleeFullName(&app.Call) != "builtin.append" || app.Call.Args[0] != ssa.Value(acc) {
+			return false, "the loop can continue past a child without appending its value"
+		}
+		vs := variadicElems(app.Call.Args[1])
+		if len(vs) != 1 {
+			return false, "an iteration appends something other than one value"
+		}
+		nodeV, okv := loadOfField(vs[0], "node", "value")
+		if !okv {
+			return false, "the argument is not the child's value"
+		}
+		childV, okn := loadOfField(nodeV, "astNode", "node")
+		if !okn {
+			return false, "the argument is not the child's value"
+		}
+		caddr, okL := isLoad(childV)
+		if !okL {
+			return false, "the argument is not the child's value"
+		}
+		cia, okc := caddr.(*ssa.IndexAddr)
+		if !okc || cia.Index != idx || !isChildren(cia.X) {
+			return false, "argument i is not taken from child i"
+		}
+		constFact := false
+		for _, f := range append(factsAt(app.Block()), factsAtEdgeTo(pred, hdr)...) {
+			n, kc, isEq, ok := k.kindTest(f.Cond)
+			if !ok || kc != k.constant || isEq != f.Truth {
+				continue
+			}
+			if n == nodeV || sameValueShape(n, nodeV) {
+				constFact = true
+			}
+			if base, okb := loadOfField(n, "astNode", "node"); okb && (base == childV || sameValueShape(base, childV)) {
+				constFact = true
+			}
+		}
+		if !constFact {
+			return false, "the appended value is not dominated by the child's kind being constant"
+		}
+	}
+	if back == 0 {
+		return false, "the argument slice is not built in a loop"
+	}
+	return true, ""
+}
 
 func ruleFoldConst(w *World, r *Report, call *ssa.Call) {
 	const rule = "R-FOLDCONST"
@@ -367,14 +452,70 @@ func ruleFoldConst(w *World, r *Report, call *ssa.Call) {
 	}
 	root := fn.Params[1]
 	params := call.Call.Args[1]
+	isChildren := func(v ssa.Value) bool {
+		base, ok := loadOfField(v, "astNode", "children")
+		return ok && (base == ssa.Value(root) || varRoot(base) == root)
+	}
+	checkAbsorption := func() {
+		// the absorption installs the deciding constant
+		EachInstr(fn, func(in ssa.Instruction) {
+			st, ok := in.(*ssa.Store)
+			if !ok {
+				return
+			}
+			tn, fld, base, okf := fieldOf(st.Addr)
+			if !okf || tn != "astNode" || fld != "node" || (base != ssa.Value(root) && varRoot(base) != root) {
+				return
+			}
+			if ok, _ := absorptionGate(w, st.Block()); !ok {
+				return
+			}
+			al, isAlloc := st.Val.(*ssa.Alloc)
+			good := false
+			if isAlloc {
+				var flagOK, valOK bool
+				for _, ref := range referrers(al) {
+					fa, ok := ref.(*ssa.FieldAddr)
+					if !ok {
+						continue
+					}
+					for _, ref2 := range referrers(fa) {
+						s2, ok := ref2.(*ssa.Store)
+						if !ok || s2.Addr != ssa.Value(fa) {
+							continue
+						}
+						switch fieldName(fa.X.Type(), fa.Field) {
+						case "flag":
+							if c, ok := constInt(s2.Val); ok && c == k.constant {
+								flagOK = true
+							}
+						case "value":
+							if ex, ok := unwrapIface(s2.Val).(*ssa.Extract); ok && ex.Index == 0 {
+								if ta, ok := ex.Tuple.(*ssa.TypeAssert); ok {
+									if _, okv := loadOfField(ta.X, "node", "value"); okv {
+										valOK = true
+									}
+								}
+							}
+						}
+					}
+				}
+				good = flagOK && valOK
+			}
+			r.Check(good, rule, w.InstrPos(st), name, "absorption: "+describe(st.Addr)+" = "+describe(st.Val), "installs a constant node holding the deciding child's bool value", "the absorption does not install the deciding constant")
+		})
+	}
+	if acc, isPhi := params.(*ssa.Phi); isPhi {
+		// the appended form: params = append(params, child.node.value) once per child, from an empty fresh slice
+		ok, why := foldArgsAppended(k, acc, call, isChildren)
+		r.Check(ok, rule, pos, name, describe(call), "arguments are exactly the values of all children, in order, each checked to be a constant (appended one per child to a fresh empty slice)", why)
+		checkAbsorption()
+		return
+	}
 	ms, ok := params.(*ssa.MakeSlice)
 	if !ok {
 		r.Fail(rule, pos, name, describe(call), "the argument slice is not freshly made in the folding pass")
 		return
-	}
-	isChildren := func(v ssa.Value) bool {
-		base, ok := loadOfField(v, "astNode", "children")
-		return ok && base == ssa.Value(root)
 	}
 	lenOK := false
 	if x, ok := lenArg(ms.Len); ok && isChildren(x) {
@@ -413,6 +554,9 @@ func ruleFoldConst(w *World, r *Report, call *ssa.Call) {
 		}
 		if x, ok := lenArg(cmp.Y); ok && isChildren(x) {
 			childrenVal = x
+		} else if ok && x == ssa.Value(ms) && lenOK {
+			// for i := range params, with params = make([]Value, len(root.children)): the same index range
+			childrenVal, _ = lenArg(ms.Len)
 		}
 		if childrenVal == nil {
 			return
@@ -470,53 +614,8 @@ func ruleFoldConst(w *World, r *Report, call *ssa.Call) {
 	})
 	r.Check(found && lenOK, rule, pos, name, describe(call), "argument slice has len(root.children) elements, element i is child i's value stored under kind == constant; the loop returns at the first non-constant child and the call follows its exit edge", why)
 
-	// the absorption installs the deciding constant
-	EachInstr(fn, func(in ssa.Instruction) {
-		st, ok := in.(*ssa.Store)
-		if !ok {
-			return
-		}
-		tn, fld, base, okf := fieldOf(st.Addr)
-		if !okf || tn != "astNode" || fld != "node" || base != ssa.Value(root) {
-			return
-		}
-		if ok, _ := absorptionGate(w, st.Block()); !ok {
-			return
-		}
-		al, isAlloc := st.Val.(*ssa.Alloc)
-		good := false
-		if isAlloc {
-			var flagOK, valOK bool
-			for _, ref := range referrers(al) {
-				fa, ok := ref.(*ssa.FieldAddr)
-				if !ok {
-					continue
-				}
-				for _, ref2 := range referrers(fa) {
-					s2, ok := ref2.(*ssa.Store)
-					if !ok || s2.Addr != ssa.Value(fa) {
-						continue
-					}
-					switch fieldName(fa.X.Type(), fa.Field) {
-					case "flag":
-						if c, ok := constInt(s2.Val); ok && c == k.constant {
-							flagOK = true
-						}
-					case "value":
-						if ex, ok := unwrapIface(s2.Val).(*ssa.Extract); ok && ex.Index == 0 {
-							if ta, ok := ex.Tuple.(*ssa.TypeAssert); ok {
-								if _, okv := loadOfField(ta.X, "node", "value"); okv {
-									valOK = true
-								}
-							}
-						}
-					}
-				}
-			}
-			good = flagOK && valOK
-		}
-		r.Check(good, rule, w.InstrPos(st), name, "absorption: "+describe(st.Addr)+" = "+describe(st.Val), "installs a constant node holding the deciding child's bool value", "the absorption does not install the deciding constant")
-	})
+	checkAbsorption()
+
 }
 
 // ---- no failure channel -------------------------------------------------------
@@ -567,6 +666,12 @@ func isBuiltinOperatorFunc(w *World, fn *ssa.Function) (string, bool) {
 }
 
 var c10Witnesses = []Witness{
+	{Name: "benign-fold-arguments-appended", Rule: "R-FOLDCONST", Benign: true, Edits: []Edit{
+		{File: "compiler.go", Old: "\tparams := make([]Value, len(root.children))\n\tfor i, child := range root.children {\n\t\tif child.node.getNodeType() != constant {\n\t\t\treturn\n\t\t}\n\t\tparams[i] = child.node.value\n\t}\n", New: "\tparams := make([]Value, 0, len(root.children))\n\tfor _, child := range root.children {\n\t\tif child.node.getNodeType() != constant {\n\t\t\treturn\n\t\t}\n\t\tparams = append(params, child.node.value)\n\t}\n"}}},
+	{Name: "appended-fold-arguments-skip-non-constants", Rule: "R-FOLDCONST", Edits: []Edit{
+		{File: "compiler.go", Old: "\tparams := make([]Value, len(root.children))\n\tfor i, child := range root.children {\n\t\tif child.node.getNodeType() != constant {\n\t\t\treturn\n\t\t}\n\t\tparams[i] = child.node.value\n\t}\n", New: "\tparams := make([]Value, 0, len(root.children))\n\tfor _, child := range root.children {\n\t\tif child.node.getNodeType() != constant {\n\t\t\tcontinue\n\t\t}\n\t\tparams = append(params, child.node.value)\n\t}\n"}}},
+	{Name: "appended-fold-arguments-unchecked", Rule: "R-FOLDCONST", Edits: []Edit{
+		{File: "compiler.go", Old: "\tparams := make([]Value, len(root.children))\n\tfor i, child := range root.children {\n\t\tif child.node.getNodeType() != constant {\n\t\t\treturn\n\t\t}\n\t\tparams[i] = child.node.value\n\t}\n", New: "\tparams := make([]Value, 0, len(root.children))\n\tfor _, child := range root.children {\n\t\tparams = append(params, child.node.value)\n\t}\n"}}},
 	{Name: "fold-calls-node-operator-ungated", Rule: "R-FOLDGATE", Edits: []Edit{
 		{File: "compiler.go", Old: "	stateless, fn := isStatelessOp(cc, n)\n	if !stateless {\n		return\n	}\n", New: "	stateless, fn := isStatelessOp(cc, n)\n	if !stateless {\n		if n.operator == nil || len(root.children) != 0 {\n			return\n		}\n		fn = n.operator\n	}\n"}}},
 	{Name: "check-evaluates-operator-for-arity", Rule: "R-FOLDGATE", Edits: []Edit{
